@@ -102,7 +102,7 @@ def classify(rc, err):
     if m:
         msg = re.sub(r'-?\d[\dxa-fA-F.e+]*', 'N', m.group(2))
         return 'ubsan:%s:%s' % (m.group(1), msg[:80])
-    if rc == -9:
+    if rc in (-9, -24):
         return 'timeout'
     if rc < 0:
         return 'signal:%d' % -rc
@@ -207,7 +207,8 @@ def run(ctx):
             big = len(data) > 100000
             import time as _t
             t0 = _t.time()
-            rc, out, err = run_limited([e] + args, input=data, timeout=60 if big or kind.startswith('deep') else 15, env=env, cap=1 << 20,
+            # CPU-time limit (robust against machine load); the wall-clock limit is only a backstop
+            rc, out, err = run_limited([e] + args, input=data, timeout=600, cpu=30 if big or kind.startswith('deep') else 10, env=env, cap=1 << 20,
                                        aslimit=not (use_san and san_exe))
             sig = classify(rc, err)
             if os.environ.get('C19_ONLY'):
